@@ -168,12 +168,24 @@ theorem happened_of_le (log : List Entry) (k : Nat) (hs : KeySorted log k) (m : 
 
 /-! ### The common difference -/
 
-theorem commonDiff_log (w : World) (pts qts : Int) : (w.commonDiff pts qts).1.log = w.log := by
+theorem extrasOf_sub (w : World) (k : Nat) : ∀ e ∈ w.extrasOf k, e ∈ w.log := by
+  intro e he
+  unfold World.extrasOf at he
+  obtain ⟨i, _, hi⟩ := List.mem_filterMap.1 he
+  exact List.mem_of_find?_eq_some hi
+
+/-- The oracle changes nothing of the server's static data. -/
+theorem commonDiff_static (w : World) (pts qts : Int) :
+    (w.commonDiff pts qts).1.log = w.log ∧ (w.commonDiff pts qts).1.p0 = w.p0 ∧
+    (w.commonDiff pts qts).1.q0 = w.q0 ∧ (w.commonDiff pts qts).1.c0 = w.c0 := by
   unfold World.commonDiff
   split
-  · rfl
+  · exact ⟨rfl, rfl, rfl, rfl⟩
   · simp only
-    split <;> rfl
+    split <;> exact ⟨rfl, rfl, rfl, rfl⟩
+
+theorem commonDiff_log (w : World) (pts qts : Int) : (w.commonDiff pts qts).1.log = w.log :=
+  (commonDiff_static w pts qts).1
 
 /-- What `commonDiff` answers when it answers `diff`. -/
 theorem commonDiff_diff (w : World) (pts qts : Int) (msgs enc others : List Entry) (p q : Int) (slice : Bool)
@@ -183,7 +195,7 @@ theorem commonDiff_diff (w : World) (pts qts : Int) (msgs enc others : List Entr
     let part := (cut w.slice cand).1
     w.tooLongNext = false ∧
     msgs = part.filter (·.kind == .msg) ∧ enc = part.filter (·.kind == .qts) ∧
-    others = part.filter (fun e => e.kind == .other || e.kind == .qother) ∧
+    others = part.filter (fun e => e.kind == .other || e.kind == .qother) ++ w.extrasOf 0 ∧
     slice = (cut w.slice cand).2 ∧
     p = (if slice then lastPos pts (fun e => e.seqKey == some 0) part
          else max (lastPos pts (fun e => e.seqKey == some 0) part) w.serverPts) ∧
@@ -294,7 +306,7 @@ theorem commonDiff_honest_pts (w : World) (hs : KeySorted w.log 0)
       rw [hm]; exact List.mem_filter.2 ⟨hin, by simp [hk]⟩
     · right
       refine List.mem_filter.2 ⟨List.mem_append_right _ (List.mem_filter.2 ⟨?_, by simp [ownCommon, hk]⟩), by simp [he.2]⟩
-      rw [ho]; exact List.mem_filter.2 ⟨hin, by simp [hk]⟩
+      rw [ho]; exact List.mem_append_left _ (List.mem_filter.2 ⟨hin, by simp [hk]⟩)
     · left; exact exempt_of_mk _ e (mkOf_marker w.log e he.1 (by simp [Entry.isMarker, hk]))
   · intro e he
     obtain ⟨hmem, hk⟩ := List.mem_filter.1 he
@@ -305,7 +317,10 @@ theorem commonDiff_honest_pts (w : World) (hs : KeySorted w.log 0)
       fun x hx => List.mem_of_mem_take (List.mem_filter.1 (cut_sub _ _ x hx)).1
     rcases List.mem_append.1 hmem with h1 | h1
     · rw [hm] at h1; exact hsub e (List.mem_filter.1 h1).1
-    · rw [ho] at h1; exact hsub e (List.mem_filter.1 (List.mem_filter.1 h1).1).1
+    · rw [ho] at h1
+      rcases List.mem_append.1 (List.mem_filter.1 h1).1 with h2 | h2
+      · exact hsub e (List.mem_filter.1 h2).1
+      · exact extrasOf_sub w 0 e h2
 
 /-- … and for qts. -/
 theorem commonDiff_honest_qts (w : World) (hs : KeySorted w.log 1)
@@ -333,7 +348,7 @@ theorem commonDiff_honest_qts (w : World) (hs : KeySorted w.log 1)
       rw [hen]; exact List.mem_filter.2 ⟨hin, by simp [hk]⟩
     · right
       refine List.mem_filter.2 ⟨List.mem_append_right _ (List.mem_filter.2 ⟨?_, by simp [ownCommon, hk]⟩), by simp [he.2]⟩
-      rw [ho]; exact List.mem_filter.2 ⟨hin, by simp [hk]⟩
+      rw [ho]; exact List.mem_append_left _ (List.mem_filter.2 ⟨hin, by simp [hk]⟩)
   · intro e he
     obtain ⟨hmem, hk⟩ := List.mem_filter.1 he
     rw [mem_seqLog]
@@ -343,36 +358,40 @@ theorem commonDiff_honest_qts (w : World) (hs : KeySorted w.log 1)
       fun x hx => List.mem_of_mem_take (List.mem_filter.1 (cut_sub _ _ x hx)).1
     rcases List.mem_append.1 hmem with h1 | h1
     · rw [hen] at h1; exact hsub e (List.mem_filter.1 h1).1
-    · rw [ho] at h1; exact hsub e (List.mem_filter.1 (List.mem_filter.1 h1).1).1
+    · rw [ho] at h1
+      rcases List.mem_append.1 (List.mem_filter.1 h1).1 with h2 | h2
+      · exact hsub e (List.mem_filter.1 h2).1
+      · exact extrasOf_sub w 0 e h2
 
-/-- Everything a common difference carries in `other_updates` belongs to the common sequences. -/
-theorem commonDiff_others_own (w : World) (pts qts : Int) (msgs enc others : List Entry) (p q : Int) (slice : Bool)
-    (h : (w.commonDiff pts qts).2 = .diff msgs enc others p q slice) :
-    others.filter (fun e => !ownCommon e) = [] := by
+/-- Everything a common difference carries in `other_updates` is a log entry. -/
+theorem commonDiff_others_sub (w : World) (pts qts : Int) (msgs enc others : List Entry) (p q : Int) (slice : Bool)
+    (h : (w.commonDiff pts qts).2 = .diff msgs enc others p q slice) : ∀ e ∈ others, e ∈ w.log := by
   obtain ⟨_, _, _, ho, _⟩ := commonDiff_diff w pts qts msgs enc others p q slice h
-  rw [List.filter_eq_nil_iff]
   intro e he
   rw [ho] at he
-  have := (List.mem_filter.1 he).2
-  simp only [Bool.or_eq_true, beq_iff_eq] at this
-  rcases this with hk | hk <;> simp [ownCommon, hk]
+  rcases List.mem_append.1 he with h1 | h1
+  · exact List.mem_of_mem_take (List.mem_filter.1 (cut_sub _ _ e (List.mem_filter.1 h1).1)).1
+  · exact extrasOf_sub w 0 e h1
 
 /-! ### The channel difference -/
 
-theorem chanDiff_log (w : World) (c : Nat) (pts : Int) : (w.chanDiff c pts).1.log = w.log := by
+theorem chanDiff_static (w : World) (c : Nat) (pts : Int) :
+    (w.chanDiff c pts).1.log = w.log ∧ (w.chanDiff c pts).1.p0 = w.p0 ∧
+    (w.chanDiff c pts).1.q0 = w.q0 ∧ (w.chanDiff c pts).1.c0 = w.c0 := by
   unfold World.chanDiff
   split
-  · rfl
+  · exact ⟨rfl, rfl, rfl, rfl⟩
   · simp only
-    split <;> rfl
+    split <;> exact ⟨rfl, rfl, rfl, rfl⟩
 
 theorem chanDiff_cases (w : World) (c : Nat) (pts : Int) :
     let cand := w.happened.filter fun e : Entry => e.seqKey == some (2 + c) && decide (e.pos > pts)
     let part := (cut w.chSlice cand).1
     (∃ p, (w.chanDiff c pts).2 = .tooLong p) ∨
     ((w.chanDiff c pts).2 = .empty (max pts (w.serverChan c)) ∧ cand = []) ∨
-    ((w.chanDiff c pts).2 = .diff (part.filter (·.kind == .chmsg)) (part.filter (·.kind == .chother))
-        (lastPos pts (fun _ => true) part) (!(cut w.chSlice cand).2)) := by
+    ((w.chanDiff c pts).2 = .diff (part.filter (·.kind == .chmsg)) (part.filter (·.kind == .chother) ++ w.extrasOf (2 + c))
+        (if part.isEmpty then max pts (w.serverChan c) else lastPos pts (fun _ => true) part)
+        (!(cut w.chSlice cand).2)) := by
   unfold World.chanDiff
   split
   · left; exact ⟨_, rfl⟩
@@ -380,52 +399,12 @@ theorem chanDiff_cases (w : World) (c : Nat) (pts : Int) :
     simp only
     split
     · rename_i he
-      left; exact ⟨rfl, cut_isEmpty _ _ he⟩
+      simp only [Bool.and_eq_true] at he
+      left; exact ⟨rfl, cut_isEmpty _ _ he.1⟩
     · right; rfl
 
-/-- **The channel difference is honest.** -/
-theorem chanDiff_honest (w : World) (c : Nat) (hs : KeySorted w.log (2 + c))
-    (hcnt : ∀ e ∈ w.log, e.seqKey = some (2 + c) → 0 ≤ e.count) (pts : Int) :
-    let cand := w.happened.filter fun e : Entry => e.seqKey == some (2 + c) && decide (e.pos > pts)
-    let part := (cut w.chSlice cand).1
-    (∀ e ∈ seqLog w.log (2 + c), pts < e.pos → e.pos ≤ lastPos pts (fun _ => true) part →
-      exempt (mkOf w.log) e = true ∨ e ∈ part.filter (·.kind == .chmsg) ++ part.filter (·.kind == .chother)) ∧
-    (∀ e ∈ part.filter (·.kind == .chmsg) ++ part.filter (·.kind == .chother), e ∈ seqLog w.log (2 + c)) := by
-  intro cand part
-  have hpk : ∀ x ∈ part, x ∈ w.log ∧ x.seqKey = some (2 + c) := by
-    intro x hx
-    have := List.mem_filter.1 (cut_sub _ _ x hx)
-    have h2 := this.2
-    simp only [Bool.and_eq_true, beq_iff_eq] at h2
-    exact ⟨List.mem_of_mem_take this.1, h2.1⟩
-  constructor
-  · intro e he her hle
-    rw [mem_seqLog] at he
-    have hC : ∀ e : Entry, e.seqKey = some (2 + c) →
-        ((fun e : Entry => e.seqKey == some (2 + c) && decide (e.pos > pts)) e = true ↔ pts < e.pos) := by
-      intro e hek; simp [hek]
-    by_cases hz : e.count = 0
-    · exact Or.inl (exempt_of_zero _ e hz)
-    have hec : 1 ≤ e.count := by
-      have hcn := hcnt e he.1 he.2
-      omega
-    have hin : e ∈ part := by
-      rcases lastPos_cases pts (fun _ => true) part with h | ⟨f, hf, _, hpos⟩
-      · rw [h] at hle; omega
-      · exact part_covers w.log (2 + c) hs w.emitted w.chSlice _ pts hC part (cut_prefix _ _) f hf (hpk f hf).2
-          e he.1 he.2 hec her (by rw [hpos]; exact hle)
-    rcases (seqKeyCh_kinds e c he.2).2 with hk | hk | hk
-    · right; exact List.mem_append_left _ (List.mem_filter.2 ⟨hin, by simp [hk]⟩)
-    · right; exact List.mem_append_right _ (List.mem_filter.2 ⟨hin, by simp [hk]⟩)
-    · left; exact exempt_of_mk _ e (mkOf_marker w.log e he.1 (by simp [Entry.isMarker, hk]))
-  · intro e he
-    rw [mem_seqLog]
-    rcases List.mem_append.1 he with h | h
-    · exact hpk e (List.mem_filter.1 h).1
-    · exact hpk e (List.mem_filter.1 h).1
-
-/-- When the channel oracle answers `empty`, nothing position-covering of the channel lies in
-`(requested, answered]`. -/
+/-- When nothing of the channel has happened above `pts`, nothing position-covering of the channel
+lies in `(pts, max pts serverChan]`. -/
 theorem chanDiff_empty_honest (w : World) (c : Nat) (hs : KeySorted w.log (2 + c))
     (horg : ∀ e ∈ w.log, e.seqKey = some (2 + c) → w.chanInit c ≤ e.pos - e.count) (pts : Int)
     (hc : (w.happened.filter fun e : Entry => e.seqKey == some (2 + c) && decide (e.pos > pts)) = []) :
@@ -442,5 +421,67 @@ theorem chanDiff_empty_honest (w : World) (c : Nat) (hs : KeySorted w.log (2 + c
     have : e ∈ (w.happened.filter fun e : Entry => e.seqKey == some (2 + c) && decide (e.pos > pts)) :=
       List.mem_filter.2 ⟨heH, by simp [he.2, her]⟩
     rw [hc] at this; simp at this
+
+/-- **The channel difference is honest**: what it carries of the channel itself (new messages and
+its own other-updates, among possibly forwarded foreign ones) contains every non-exempt entry of
+the channel in `(requested, answered]`, and what it carries are log entries. -/
+theorem chanDiff_honest (w : World) (c : Nat) (hs : KeySorted w.log (2 + c))
+    (hcnt : ∀ e ∈ w.log, e.seqKey = some (2 + c) → 0 ≤ e.count)
+    (horg : ∀ e ∈ w.log, e.seqKey = some (2 + c) → w.chanInit c ≤ e.pos - e.count) (pts : Int) :
+    let cand := w.happened.filter fun e : Entry => e.seqKey == some (2 + c) && decide (e.pos > pts)
+    let part := (cut w.chSlice cand).1
+    let own := (part.filter (·.kind == .chother) ++ w.extrasOf (2 + c)).filter (·.seqKey == some (2 + c))
+    (∀ e ∈ seqLog w.log (2 + c), pts < e.pos →
+      e.pos ≤ (if part.isEmpty then max pts (w.serverChan c) else lastPos pts (fun _ => true) part) →
+      exempt (mkOf w.log) e = true ∨ e ∈ part.filter (·.kind == .chmsg) ++ own) ∧
+    (∀ e ∈ part.filter (·.kind == .chmsg) ++ own, e ∈ seqLog w.log (2 + c)) ∧
+    (∀ e ∈ part.filter (·.kind == .chother) ++ w.extrasOf (2 + c), e ∈ w.log) := by
+  intro cand part own
+  have hpk : ∀ x ∈ part, x ∈ w.log ∧ x.seqKey = some (2 + c) := by
+    intro x hx
+    have := List.mem_filter.1 (cut_sub _ _ x hx)
+    have h2 := this.2
+    simp only [Bool.and_eq_true, beq_iff_eq] at h2
+    exact ⟨List.mem_of_mem_take this.1, h2.1⟩
+  refine ⟨?_, ?_, ?_⟩
+  · intro e he her hle
+    by_cases hz : e.count = 0
+    · exact Or.inl (exempt_of_zero _ e hz)
+    have he' := (mem_seqLog w.log (2 + c) e).1 he
+    have hec : 1 ≤ e.count := by
+      have hcn := hcnt e he'.1 he'.2
+      omega
+    by_cases hpe : part.isEmpty = true
+    · exfalso
+      rw [if_pos hpe] at hle
+      exact chanDiff_empty_honest w c hs horg pts (cut_isEmpty _ _ hpe) e he hec ⟨her, hle⟩
+    · rw [if_neg hpe] at hle
+      have hC : ∀ e : Entry, e.seqKey = some (2 + c) →
+          ((fun e : Entry => e.seqKey == some (2 + c) && decide (e.pos > pts)) e = true ↔ pts < e.pos) := by
+        intro e hek; simp [hek]
+      have hin : e ∈ part := by
+        rcases lastPos_cases pts (fun _ => true) part with h | ⟨f, hf, _, hpos⟩
+        · rw [h] at hle; omega
+        · exact part_covers w.log (2 + c) hs w.emitted w.chSlice _ pts hC part (cut_prefix _ _) f hf (hpk f hf).2
+            e he'.1 he'.2 hec her (by rw [hpos]; exact hle)
+      rcases (seqKeyCh_kinds e c he'.2).2 with hk | hk | hk
+      · right; exact List.mem_append_left _ (List.mem_filter.2 ⟨hin, by simp [hk]⟩)
+      · right
+        apply List.mem_append_right
+        exact List.mem_filter.2 ⟨List.mem_append_left _ (List.mem_filter.2 ⟨hin, by simp [hk]⟩), by simp [he'.2]⟩
+      · left; exact exempt_of_mk _ e (mkOf_marker w.log e he'.1 (by simp [Entry.isMarker, hk]))
+  · intro e he
+    rw [mem_seqLog]
+    rcases List.mem_append.1 he with h | h
+    · exact hpk e (List.mem_filter.1 h).1
+    · obtain ⟨h1, h2⟩ := List.mem_filter.1 h
+      refine ⟨?_, by simpa using h2⟩
+      rcases List.mem_append.1 h1 with h3 | h3
+      · exact (hpk e (List.mem_filter.1 h3).1).1
+      · exact extrasOf_sub w _ e h3
+  · intro e he
+    rcases List.mem_append.1 he with h3 | h3
+    · exact (hpk e (List.mem_filter.1 h3).1).1
+    · exact extrasOf_sub w _ e h3
 
 end TdModel.C02Core
